@@ -105,6 +105,21 @@ def run_ops(eng, ureg, model, W, x, ops, pos, tag, shared, full):
                     run_ops(eng, ureg, model, W, x, ops[: i + 2], i + 1, tag + "b", shared, full)
             model.disable(2)
             i += 1
+        elif kind == "enable_unhashable":
+            # an activation that fails for another reason than a refused redefinition: the
+            # parameter of a redefining context cannot be hashed into the combination key
+            try:
+                ureg.enable_contexts(op[1], n=[1, 2])
+            except TypeError:
+                eng.prove(True, f"{t}:unhashable-parameter-raises")
+            else:
+                ureg.disable_contexts(1)
+        elif kind == "with_unhashable":
+            try:
+                with ureg.context(op[1], n=[1, 2]):
+                    pass
+            except TypeError:
+                eng.prove(True, f"{t}:unhashable-parameter-with-raises")
         elif kind == "enable_bad":
             try:
                 ureg.enable_contexts("bad")
@@ -227,6 +242,9 @@ def _alphabet():
     ops.append(("enable_bad",))
     ops.append(("with_bad",))
     ops.append(("define",))
+    for c in ("c3", "c4"):
+        ops.append(("enable_unhashable", c))
+        ops.append(("with_unhashable", c))
     for c in ("c1", "c3"):
         ops.append(("enable_twice", c))
         ops.append(("call_twice", c))
